@@ -472,6 +472,7 @@ int verif_main(int argc, char** argv, const HarnessDef& def) {
       }
       PrngSrc src(g_seed, (uint64_t)i);
       Case c;
+      c.index = (uint64_t)i;
       long k = i - start;
       c.size = k < 200 ? (int)(k / 2) : 100 - (int)((k * 7) % 60 == 0 ? 60 : 0);  // ramp, then mostly full size
       if (c.size > max_size) c.size = max_size;
@@ -497,6 +498,7 @@ int verif_main(int argc, char** argv, const HarnessDef& def) {
         return;
       }
       Case c;
+      c.index = g_st.evaluations + g_st.excluded;
       c.size = size > max_size ? max_size : size;
       c.counting = !failed_once;
       std::string msg;
